@@ -24,7 +24,11 @@ Keep == UNCHANGED <<log, applied, snaps, partial, capturing, nextHid, ops, hist>
 SameFun(f, g) == DOMAIN f = DOMAIN g /\ \A k \in DOMAIN f : f[k] = g[k]
 HistSame(h1, h2) == Len(h1) = Len(h2) /\ \A i \in 1..Len(h1) : h1[i].id = h2[i].id /\ h1[i].content = h2[i].content
 CfgSame(f, g) == DOMAIN f = DOMAIN g /\ \A k \in DOMAIN f : f[k].content = g[k].content /\ HistSame(f[k].hist, g[k].hist)
+                                                       /\ f[k].ty = g[k].ty /\ f[k].desc = g[k].desc
+NamSame(f, g) == DOMAIN f = DOMAIN g /\ \A k \in DOMAIN f : f[k].w = g[k].w /\ f[k].en = g[k].en
+\* (MCP is not driven by the recorder: its requests need ids that the leader stamps; it is covered by the replay legs)
 SameState(a, b) == CfgSame(a.cfg, b.cfg) /\ SameFun(a.ns, b.ns) /\ SameFun(a.usr, b.usr) /\ SameFun(a.seq, b.seq)
+                   /\ NamSame(a.nam, b.nam) /\ SameFun(a.cch, b.cch) /\ DOMAIN a.tool = {} /\ DOMAIN a.srv = {}
 
 TReset == IsEvent("reset") /\ sm' = Empty /\ Keep
 TApply == IsEvent("apply") /\ sm' = ApplyReq(sm, Rec[l].req) /\ Keep
